@@ -563,6 +563,13 @@ load_basic(Archive &ar, RCP<const T> &,
 {
     RCP<const Number> num, den;
     ar(num, den);
+    if (is_a<RealDouble>(*num) and is_a<RealDouble>(*den)) {
+        // floating parts are restored as they are: re + I*im would turn
+        // (1, inf) into (nan, inf) and (-0.0, 2) into (0.0, 2)
+        return complex_double(
+            std::complex<double>(down_cast<const RealDouble &>(*num).i,
+                                 down_cast<const RealDouble &>(*den).i));
+    }
     return addnum(num, mulnum(I, den));
 }
 template <class Archive>
